@@ -79,7 +79,12 @@ func Build(s *Setup, reqs []*Req, o BuildOpts) *World {
 		w.reqs[q.Name] = q
 	}
 	w.reqs[""] = &Req{Name: "?"} // sink for handlers that cannot be attributed
-	flamego.SetEnv(envs[s.Env])
+	if s.EnvLate {
+		flamego.SetEnv(envs[(s.Env+1)%3])
+		defer flamego.SetEnv(envs[s.Env])
+	} else {
+		flamego.SetEnv(envs[s.Env])
+	}
 	f := flamego.NewWithLogger(Sink{})
 	w.F = f
 	if s.Svc {
